@@ -369,7 +369,8 @@ theorem createURR_pres (s : Sess) (ie : RuleIE) (c : Ctx) :
   | none => exact Pres.refl s c
   | some id =>
     simp only []
-    let info : URRInfo := { durat := (ie.meth.getD (false, false)).1, volum := (ie.meth.getD (false, false)).2, mnop := (ie.mnop.getD false) }
+    let info : URRInfo := { durat := (ie.meth.getD (false, false)).1, volum := (ie.meth.getD (false, false)).2, mnop := (ie.mnop.getD false),
+                            refPdrNum := (s.pdrs.filter fun p => p.2.contains id).length }
     apply pres_one_call s ({ s with urrs := (alSet s.urrs id info) } : Sess) c _ rfl rfl
     intro dp hs hnat
     apply sinv_call s _ dp _ _ (by rfl) (by rfl) hs hnat
